@@ -101,7 +101,7 @@ func runCase(t *testing.T, p *pool, c *GCase) {
 	outctx := ocr3types.OutcomeContext{SeqNr: c.Seq, PreviousOutcome: prevBytes(c)}
 	var first []byte
 	var firstErr error
-	c.Det, c.Evals, c.AltOuts = true, 0, nil
+	c.Det, c.Evals, c.AltOuts, c.NReports = true, 0, nil, 0
 	for rep := 0; rep < 3; rep++ {
 		for _, nd := range nodes {
 			// fresh copies of the inputs for every evaluation (Outcome may alias what it decodes)
@@ -135,6 +135,7 @@ func runCase(t *testing.T, p *pool, c *GCase) {
 		ref := NewNode(p.t, NodeOpts{N: c.N, F: c.F, Oracle: 3, Digest: ocr2plustypes.ConfigDigest(digestOf(c.Digest))})
 		p.fresh = append(p.fresh, ref)
 		want, werr := ref.Plugin.Reports(context.Background(), c.Seq, first)
+		c.NReports = len(want)
 		for rep := 0; rep < 2; rep++ {
 			for _, nd := range nodes {
 				got, gerr := nd.Plugin.Reports(context.Background(), c.Seq, append([]byte(nil), first...))
@@ -270,9 +271,9 @@ func caseTerm(c *GCase) string {
 		outT = fmt.Sprintf("(Some (%s, %s))", CoqList(out.AgreedPerformables, func(r common.CheckResult) string { return CoqNat(in.rowIdx(r)) }),
 			CoqList(out.SurfacedProposals, func(rd []common.CoordinatedBlockProposal) string { return CoqList(rd, in.prop) }))
 	}
-	return fmt.Sprintf("mkOCase %s [%s] [%s] [%s] %s [%s] %s %s %d %s",
+	return fmt.Sprintf("mkOCase %s [%s] [%s] [%s] %s [%s] %s %s %d %d %s",
 		CoqNat(c.F), strings.Join(utg, "; "), strings.Join(wgk, "; "), strings.Join(rows, ";\n      "),
-		in.shufTable(digestOf(c.Digest), c.Seq), strings.Join(obs, ";\n      "), prevT, outT, len(c.OutJSON), CoqBool(c.Det))
+		in.shufTable(digestOf(c.Digest), c.Seq), strings.Join(obs, ";\n      "), prevT, outT, len(c.OutJSON), c.NReports, CoqBool(c.Det))
 }
 
 // ---------------------------------------------------------------- test entry points
